@@ -140,6 +140,15 @@ def c10_classifier():
     return on_case
 
 
+def c01_streams(tier, seed):
+    q = tier == "quick"
+    c = tok_classifier("C01", has_tokens)
+    return [(["tok", "c01", str(seed), "600" if q else "20000"], c),
+            # dictionaries at the acceptance boundaries of the builders (ids exactly at the connector size, category
+            # limits, corrupted files): whatever is accepted must tokenize into a partition without panicking
+            (["tok", "c10", str(seed + 7), "700" if q else "20000"], c)]
+
+
 def c10_streams(tier, seed):
     q = tier == "quick"
     c = c10_classifier()
@@ -433,7 +442,12 @@ def train_classifier(prop):
                     info["prop_fail"] = "reload-generates-different-files"
                     info["why"] = "files generated from the reloaded model differ from those of the in-memory model (or generation is not deterministic)"
         elif prop == "C18":
-            if flags.get("INJ") == "0":
+            if flags.get("CLASSES", "1").startswith("0"):
+                # decider: classes_spec / tuple_listed (the row listed for a word's connection id is the expansion of the
+                # templates over the word's rewritten features); expansions from a fresh configuration (hook expected_bigram_tuples)
+                info["prop_fail"] = "listed-tuple-is-not-the-expansion"
+                info["why"] = "a word of the emitted lexicons carries a connection id whose bigram.left/right row is not the expansion of its features: " + flags["CLASSES"]
+            elif flags.get("INJ") == "0":
                 # theorem intern_injective: along any history of calls, removals and reloads every map stays injective
                 info["prop_fail"] = "different-strings-share-a-feature-id"
                 info["why"] = "after reloading the model and reading a user lexicon two different expansion strings carry the same feature id"
@@ -552,7 +566,9 @@ def c18_streams(tier, seed):
     q = tier == "quick"
     return [(["extract", str(seed), "1500" if q else "50000"], extract_classifier(("expand", "session", "featset", "featcfg"))),
             # interning after a reload (next-id counters) and the class tables of real models
-            (["train", "quick", str(seed), "20" if q else "600"], train_classifier("C18"))]
+            (["train", "quick", str(seed), "20" if q else "600"], train_classifier("C18")),
+            # the same through the real dictgen program
+            (["cli", str(seed), "12" if q else "400"], cli_classifier({"train": train_classifier("C18")}, ()), {"cli": True})]
 
 
 def cli_classifier(inner, prefixes):
@@ -923,7 +939,7 @@ PROPS = {
         "modules": ["Vibrato.Props.C01"],
         "theorems": ["Vibrato.tokens_segments", "Vibrato.tokenize_total", "Vibrato.tokens_partition",
                      "Vibrato.cover_no_ignore", "Vibrato.gaps_start_with_space", "Vibrato.tokenize_empty"],
-        "streams": tok_streams("c01", 600, 20000, tok_classifier("C01", has_tokens)),
+        "streams": c01_streams,
         "rule": "random dictionaries (matrix connector, unk.def covering every category) x sentences over a 13-letter "
                 "alphabet with 1..4-byte characters, two SPACE characters, an astral and an out-of-range character "
                 "x all option settings; non-trivial = at least one token reported; distinct = sha1 of the case input",
